@@ -245,6 +245,25 @@ def strat_hist(draw, tier):
         q['kind'] = draw(st.sampled_from(['shortest'] * 5 + ['obs']) if q0['kind'] == 'shortest' else st.sampled_from(['step', 'obs', 'reward', 'shortest', 'shortest', 'term']))
         q['action'] = draw(gen.action_s)
         others.append(q)
+    big = {11: 1, 23: 1, 29: 1, 47: 1, 53: 1}.get(draw(st.integers(0, 79)), 9)      # (interior values: Hypothesis over-samples the ends of a range)
+    if big < 2:
+        # questions whose natural cache keys are arrays of more than 1000 elements (a 33x33 ray-traced view around a small world; a
+        # 36x36 / 12x100 world around the small one), asked about worlds that differ in a single interior cell
+        if big == 0:
+            q0['kind'], q0['area'] = 'obs', gen.HUGE_CENTRED
+            q0['comp'] = dict(q0['comp'], obs='raytracing')
+        else:
+            H, W = draw(st.sampled_from([(36, 36), (16, 100), (100, 16)]))
+            q0['kind'] = 'shortest'
+            q0['state'] = gen.embed(q0['state'], H, W, draw(st.integers(4, H - 4 - M.shape(q0['state'])[0])), draw(st.integers(4, W - 4 - M.shape(q0['state'])[1])))
+        others = []
+        cells = [p for p in M.positions(q0['state']) if M.obj_type(M.cell(q0['state'], p)) not in UNIQ and p != M.apos(q0['state'])
+                 and (big == 0 or all(3 < c < m - 4 for c, m in zip(p, M.shape(q0['state']))))]
+        for p in draw(st.lists(st.sampled_from(cells), min_size=2, max_size=3 if big == 0 else 6)) if cells else []:
+            q = copy.deepcopy(q0)
+            q['state']['grid'][p[0]][p[1]] = 'W' if M.cell(q['state'], p) != 'W' else 'F'
+            others.append(q)
+        return {'q': q0, 'others': others, 'q0_first': draw(st.booleans()), 'big': ['view', 'grid'][big]}
     return {'q': q0, 'others': others}
 
 
@@ -255,17 +274,40 @@ def truth_shortest(q):
     return M.reward({'name': 'getting_closer_shortest_path', 'object_type': 'Exit', 'reward_closer': 1.0, 'reward_further': -1.0}, sd, q['action'], nd)
 
 
+def same_answer(x, y):
+    if isinstance(x, float) and isinstance(y, float):
+        return x == y or abs(x - y) <= 1e-12
+    return x == y
+
+
 def oracle_hist(case, ctx):
     q0 = case['q']
+    # every answer is also computed in a process without any history (25% of the ordinary cases, all of the big ones)
+    check_pristine = ctx.pristine is not None and (bool(case.get('big')) or (len(json.dumps(q0['state'])) % 10 == 0 and len(case['others']) <= 6))
+    _ask = ask
+
+    def asked(q):
+        ans = _ask(q)
+        if check_pristine:
+            kind, truth = ctx.pristine.call('vgv.props.c03', 'ask', q)
+            if kind != 'ok':
+                ctx.fail(f'question {q["kind"]}: a process without history failed ({truth}) where this one answered', {'kind': 'history', 'aspect': 'pristine'})
+            elif not same_answer(ans, truth):
+                ctx.fail(f'question {q["kind"]} (action {q["action"]}, grid {M.shape(q["state"])}, area {q["area"]}): the answer in this process differs from the answer of a process '
+                         f'that has executed nothing before: {str(ans)[:150]} vs {str(truth)[:150]}', {'kind': 'history', 'aspect': 'pristine'})
+        return ans
+
     # half of the other questions come first (an earlier call may have poisoned a cache), the rest in between
     others = case['others']
     pre, post = others[: len(others) // 3], others[len(others) // 3:]
+    if case.get('q0_first'):
+        pre, post = [], others
     for q in pre:
-        ans = guarded(ctx, f'question {q["kind"]}', ask, q)
+        ans = guarded(ctx, f'question {q["kind"]}', asked, q)
         if q['kind'] == 'shortest' and ans != truth_shortest(q):
             ctx.fail(f'getting_closer_shortest_path = {ans} on a {M.shape(q["state"])} grid, breadth-first search on the layout gives {truth_shortest(q)} (after earlier questions on other grids)', {'kind': 'history'})
     case = dict(case, others=post)
-    first = guarded(ctx, f'question {q0["kind"]}', ask, q0)
+    first = guarded(ctx, f'question {q0["kind"]}', asked, q0)
     layouts = set()
     seen = {json.dumps([q0['state'], q0['area']], sort_keys=True)}
     rehits = 0
@@ -273,14 +315,14 @@ def oracle_hist(case, ctx):
         seen.add(json.dumps([q['state'], q['area']], sort_keys=True))
         layouts.add(json.dumps([[not M.blocks_movement(o) for o in r] for r in q['state']['grid']]))
     for q in case['others']:
-        ans = guarded(ctx, f'question {q["kind"]}', ask, q)
+        ans = guarded(ctx, f'question {q["kind"]}', asked, q)
         if q['kind'] == 'shortest' and ans != truth_shortest(q):
             ctx.fail(f'getting_closer_shortest_path = {ans} on a {M.shape(q["state"])} grid, breadth-first search on the layout gives {truth_shortest(q)} (after earlier questions on other grids)', {'kind': 'history'})
         k = json.dumps([q['state'], q['area']], sort_keys=True)
         rehits += k in seen
         seen.add(k)
         layouts.add(json.dumps([[not M.blocks_movement(o) for o in r] for r in q['state']['grid']]))
-    again = guarded(ctx, f'question {q0["kind"]}', ask, q0)
+    again = guarded(ctx, f'question {q0["kind"]}', asked, q0)
     if again != first:
         ctx.fail(f'the same deterministic question ({q0["kind"]}, action {q0["action"]}) gave a different answer after {len(case["others"])} other calls: {str(first)[:120]} vs {str(again)[:120]}',
                  {'kind': 'history'})
@@ -293,7 +335,29 @@ def oracle_hist(case, ctx):
             ctx.fail(f'getting_closer_shortest_path = {first}/{again}, breadth-first search on the layout gives {exp}', {'kind': 'history'})
     twins = sum(1 for q in others if M.shape(q['state']) != M.shape(q0['state']) and sorted(o for r in q['state']['grid'] for o in r) == sorted(o for r in q0['state']['grid'] for o in r))
     ctx.ev.case(case, nt=(rehits > 0 or len(layouts) > 10), classes=['q:' + q0['kind']] + (['cache_key_rehit'] if rehits else []) + (['>10_layouts'] if len(layouts) > 10 else [])
-                + (['reshape_twin'] if twins else []))
+                + (['reshape_twin'] if twins else []) + (['big:' + case['big']] if case.get('big') else []) + (['pristine_answers'] if check_pristine else []))
+
+
+def enum_bigview(tier, shard, nshards):
+    """worlds that differ in one cell, all seen through the same 33x33 (thorough also 25x41) ray-traced view: whatever is remembered
+    under a key derived from more than 1000 cells must not mix them up (numpy abbreviates the text of arrays over 1000 elements)"""
+    areas = [gen.HUGE_CENTRED] if tier == 'quick' else [gen.HUGE_CENTRED, [[-12, 12], [-20, 20]]]
+    i = 0
+    for area in areas:
+        for first in (True, False):
+            i += 1
+            if i % nshards != shard:
+                continue
+            base = {'grid': [['F', 'F', 'F', 'F', 'F'], ['F', 'W', 'F', 'E:NONE', 'F'], ['F', 'F', 'F', 'F', 'F'], ['F', 'N:NONE', 'F', 'W', 'F'], ['F', 'F', 'F', 'F', 'F']],
+                    'agent': [2, 2, 'F', '_']}
+            comp = {'chain': ['move_agent', 'turn_agent'], 'rewards': [{'name': 'living_reward', 'reward': -1.0}], 'term': {'name': 'reach_exit'}, 'obs': 'raytracing', 'view': [1, 1]}
+            q0 = {'space': {'types': ['Floor', 'Wall', 'Exit', 'Beacon'], 'colors': ['NONE']}, 'state': base, 'comp': comp, 'area': area, 'action': 'TURN_LEFT', 'seed': 0, 'kind': 'obs'}
+            others = []
+            for p in ((1, 2), (2, 1), (0, 0)):
+                q = copy.deepcopy(q0)
+                q['state']['grid'][p[0]][p[1]] = 'W'
+                others.append(q)
+            yield {'q': q0, 'others': others, 'q0_first': first, 'big': 'view'}
 
 
 # ------------------------------------------------------------------ shipped compositions
@@ -340,9 +404,12 @@ CHECKS = [
           rule='state (nested boxes, doors, held items; hashed beforehand) x action x composition x area (incl. the view that covers the grid exactly): inputs canonically unchanged by step / observation / reward / termination; '
                'next state shares no mutable part (identity and scribbling, both directions); copies equal and hash alike',
           required=['changed', 'box', 'nested_box', 'door', 'holding', 'view==grid', 'door_opened_in_place', 'obs:partially_occluded', 'obs:raytracing']),
-    Check('history', oracle_hist, strategy=strat_hist, examples={'quick': 120, 'thorough': 500}, shards={'quick': 6, 'thorough': 16},
-          rule='a deterministic question (step / observation / reward / shortest-path reward / termination) asked before and after 0-25 other questions (same keys, other poses, > 10 new walkability layouts)',
-          required=['cache_key_rehit', '>10_layouts', 'q:shortest', 'q:obs', 'reshape_twin']),
+    Check('history', oracle_hist, strategy=strat_hist, examples={'quick': 120, 'thorough': 500}, shards={'quick': 6, 'thorough': 16}, pristine=True,
+          rule='a deterministic question (step / observation / reward / shortest-path reward / termination) asked before and after 0-25 other questions (same keys, other poses, > 10 new walkability layouts; families of worlds differing in one interior cell under a 33x33 ray-traced view or inside a world of more than 1000 cells); a tenth of the short cases and all big ones: every answer == the answer of a process that has executed nothing before',
+          required=['cache_key_rehit', '>10_layouts', 'q:shortest', 'q:obs', 'reshape_twin', 'big:grid', 'pristine_answers']),
+    Check('big_view_family', oracle_hist, enumerate=enum_bigview, shards={'quick': 2, 'thorough': 4}, pristine=True,
+          rule='a 5x5 world and three worlds differing from it in one cell, all observed through the same 33x33 (thorough also 25x41) ray-traced view, in both orders: every answer == the answer of a process that has executed nothing before',
+          required=['big:view']),
     Check('shipped', oracle_shipped, strategy=strat_shipped, examples={'quick': 3, 'thorough': 10}, shards={'quick': 4, 'thorough': 16},
           rule='all 22 shipped configurations (and perturbed ones) driven through the functional interface: purity and alias-freedom at every step'),
 ]
